@@ -186,7 +186,7 @@ fn case(rng: &mut Rng, ctx: &mut Ctx, idx: u64) {
         req_meta.insert(at, ("grpc-encoding".to_string(), crate::gen::MVal::Ascii(v.to_string())));
         ctx.count("req.caller_supplied_grpc_encoding");
     }
-    let spec = CallSpec { id: id.clone(), shape, req_msgs: req_msgs.clone(), req_meta, req_pend: (0..nreq + 1).map(|_| rng.below(2) as u8).collect(), req_gaps_ms: vec![], timeout: None };
+    let spec = CallSpec { id: id.clone(), shape, req_msgs: req_msgs.clone(), req_meta, req_pend: (0..nreq + 1).map(|_| rng.below(2) as u8).collect(), req_gaps_ms: vec![], timeout: None, pingpong: None };
     let case_json = json!({"shape": format!("{:?}", shape), "client_send": c_send.map(|e| e.name()), "server_send": s_send.map(|e| e.name()), "outcome": outcome,
         "response_msg_sizes": script.msgs.iter().map(|m| m.data.len()).collect::<Vec<_>>(), "request_msgs": nreq, "server_encode_limit": server_limit});
     ctx.begin(&format!("{}-{:?}", outcome, shape), case_json.clone());
